@@ -226,3 +226,58 @@ Theorem C06_whole_life_uninit_unpack : forall ds TI rt A cap, rt_ok rt = true ->
                 (map vals (filter (dr ds TI) P) ++ uentered ds TI stages).
 Proof. intros ds TI rt A cap RT. exact (uchain_then_unpack ds TI rt A cap RT). Qed.
 Print Assumptions C06_whole_life_uninit_unpack.
+
+(* ---- the same from a request history: for every history of valid requests with power-of-two alignments, the stages of
+   the chain are read off the consecutive variants of the definition the builder produced (`stages_follow`: stage k
+   converts variant k to variant k+1 with the removed / added lists the generator computes for that pair, complete or
+   uninit form, removed data handed back or not, any reads and writes on variant k+1 afterwards) and every layout
+   hypothesis is derived from the history (Proofs/Link.v, LinkChain.v).  What remains assumed: real type information
+   that agrees with the recorded one (what the module's own gate forces: C11), a capacity covering the published
+   max_size, and no two zero-size data of one type at one offset.  Then: new, the whole chain through ALL the variants,
+   Drop - no fault, and destroyed ++ handed back = entered. *)
+From Truc.Proofs Require Import BuilderInv LayoutThms Link LinkChain.
+Theorem C06_life_from_history : forall h TI rt cap mx, hist_ok h -> pow2_hist h -> rt_ok rt = true ->
+  let b := run h in let ds := b_ds b in let A := max_type_align (ds, b_vs b) in
+  (forall v i, In v (b_vs b) -> In i v ->
+     ti_size (TI (d_ty (getd ds i))) = d_size (getd ds i) /\ ti_align (TI (d_ty (getd ds i))) = d_align (getd ds i)) ->
+  max_size (ds, b_vs b) = Some mx -> (mx <= cap)%N ->
+  (forall v, In v (b_vs b) -> forall i j, In i v -> In j v -> i <> j -> Gen.ty ds i = Gen.ty ds j ->
+     d_size (getd ds i) = 0%N -> Gen.of ds i <> Gen.of ds j) ->
+  forall P0 rest stages vals v0 v,
+  b_vs b = P0 :: rest -> stages_follow h TI (b_vs b) stages ->
+  exists r bf d back dropped,
+    op_new ds TI rt A cap v0 P0 vals = Ok (ORecord r, []) /\
+    uchain_run ds TI rt A cap r stages = Ok (bf, d, back) /\
+    op_drop ds TI rt A cap v (last (b_vs b) P0) bf = Ok (ONone, dropped) /\
+    Permutation (d ++ dropped ++ back) (map vals (filter (dr ds TI) P0) ++ uentered ds TI stages).
+Proof.
+  intros h TI rt cap mx Hh Hp RT b ds A HTI Hm Hcap Hz P0 rest stages vals v0 v Evs Hf.
+  exact (life_from_history h Hh Hp TI HTI cap (ex_intro _ mx (conj Hm Hcap)) Hz rt RT P0 rest stages vals v0 v Evs Hf).
+Qed.
+Print Assumptions C06_life_from_history.
+
+(* a concrete history meeting the hypotheses: {a: droppable 24 / 8}, then a removed, c (droppable) and u (plain,
+   allow_uninit) added - the builder puts c on a's bytes; the one stage follows the two variants with the lists the
+   generator computes *)
+Definition exh : list req := [Add 0 1 24 8 false; Close SSimple; Remove 0%nat; Add 1 1 24 8 false; Add 2 2 8 8 true; Close SSimple].
+Definition exh_ti (t : nat) : tinfo := if Nat.eqb t 1 then mkTi 24 8 true else mkTi 8 8 false.
+Definition exh_stage : ustage :=
+  mkUStage (mkStage [1; 2]%nat [0%nat] [1; 2]%nat [] false (fun i => (200 + i)%nat) [LSet 1 9; LGet 2 false]%nat 1 0) true (fun _ => 55%nat).
+Example C06_life_from_history_nonvacuous :
+  b_vs (run exh) = [[0]; [1; 2]]%nat /\ max_size (b_ds (run exh), b_vs (run exh)) = Some 32%N /\
+  stages_follow exh exh_ti (b_vs (run exh)) [exh_stage] /\
+  match op_new (b_ds (run exh)) exh_ti rt_fixed 8 32 0 [0%nat] (fun i => (100 + i)%nat) with
+  | Ok (ORecord r, _) =>
+      match uchain_run (b_ds (run exh)) exh_ti rt_fixed 8 32 r [exh_stage] with
+      | Ok (bf, d, back) =>
+          match op_drop (b_ds (run exh)) exh_ti rt_fixed 8 32 1 [1; 2]%nat bf with Ok (_, dropped) => Some (d, back, dropped) | _ => None end
+      | _ => None
+      end
+  | _ => None
+  end = Some ([100; 201], [], [9])%nat.
+Proof.
+  split; [vm_compute; reflexivity|]. split; [vm_compute; reflexivity|]. split; [|vm_compute; reflexivity].
+  change (b_vs (run exh)) with [[0%nat]; [1; 2]%nat]. cbn [stages_follow exh_stage u_s u_uninit s_Q s_minus s_plus s_ops].
+  split; [reflexivity|]. split; [vm_compute; reflexivity|]. split; [repeat constructor; simpl; tauto|].
+  split; [|exact I]. intros _ i [<-|[<-|[]]]; vm_compute; congruence.
+Qed.
